@@ -384,9 +384,15 @@ fn gen_unary(rng: &mut Rng) -> String {
         }
     }
     // consistently wound (the property's domain); once in a while left as generated
+    // (then every member gets a direction of its own: outside the domain, the driver records what the code does)
     if !rng.chance(1, 12) {
         let d = if rng.chance(1, 2) { Direction::Default } else { Direction::Reversed };
         ps = ps.iter().map(|p| p.orient(d)).collect();
+    } else {
+        ps = ps
+            .iter()
+            .map(|p| p.orient(if rng.chance(1, 2) { Direction::Default } else { Direction::Reversed }))
+            .collect();
     }
     let mut ps: Vec<Polygon<f64>> = ps.iter().map(|p| if rng.chance(1, 5) { repeat_poly(rng, p) } else { p.clone() }).collect();
     // an empty polygon (no ring, so no winding) at the front or elsewhere
